@@ -202,6 +202,44 @@ func buildWorker(flavour string) (string, error) {
 	return out, nil
 }
 
+// hangInSUT looks at the goroutine dump a worker prints when a run exceeds its
+// real-time budget: if the run goroutine (the one executing the property's
+// run function) is blocked with a coreutils frame above every harness frame -
+// i.e. it called into the system under test and never came back - it returns
+// that frame; otherwise "" (the harness itself is busy or waiting, e.g. for a
+// relay storm between simulated nodes).
+func hangInSUT(stderr string) string {
+	i := strings.Index(stderr, "WATCHDOG-STACKS-BEGIN")
+	if i < 0 {
+		return ""
+	}
+	dump := stderr[i:]
+	if j := strings.Index(dump, "WATCHDOG-STACKS-END"); j >= 0 {
+		dump = dump[:j]
+	}
+	for _, g := range strings.Split(dump, "\n\n") {
+		if !strings.Contains(g, "verif/sim.Execute") {
+			continue
+		}
+		for _, l := range strings.Split(g, "\n") {
+			if l == "" || l[0] == '\t' || strings.HasPrefix(l, "goroutine ") || strings.HasPrefix(l, "WATCHDOG") {
+				continue
+			}
+			fn := l
+			if k := strings.LastIndex(fn, "("); k > 0 {
+				fn = fn[:k]
+			}
+			switch {
+			case strings.HasPrefix(fn, "go.sia.tech/coreutils"):
+				return fn
+			case strings.HasPrefix(fn, "verif/") || strings.HasPrefix(fn, "verif."):
+				return ""
+			}
+		}
+	}
+	return ""
+}
+
 // buildRaceWorker builds the plain flavour with the race detector.
 func buildRaceWorker() (string, error) {
 	out := filepath.Join(root, "bin", "worker-race.test")
@@ -364,6 +402,7 @@ func runWorker(bin, prop string, base uint64, from, count uint64, deadline time.
 		}
 		started, finished := uint64(0), uint64(0)
 		var lastStart uint64
+		var pre *sim.Record
 		clean := false
 		sc := bufio.NewScanner(&stdout)
 		sc.Buffer(make([]byte, 1<<20), 256<<20)
@@ -373,12 +412,19 @@ func runWorker(bin, prop string, base uint64, from, count uint64, deadline time.
 			case strings.HasPrefix(line, "START "):
 				started++
 				lastStart, _ = strconv.ParseUint(line[6:], 10, 64)
+			case strings.HasPrefix(line, "PRE "):
+				// the record of a violating run, printed before its cleanup
+				var r sim.Record
+				if json.Unmarshal([]byte(line[4:]), &r) == nil {
+					pre = &r
+				}
 			case strings.HasPrefix(line, "REC "):
 				var r sim.Record
 				if json.Unmarshal([]byte(line[4:]), &r) == nil {
 					res.recs = append(res.recs, r)
 					finished++
 				}
+				pre = nil
 			case line == "DONE" || strings.HasPrefix(line, "DEADLINE"):
 				clean = true
 			}
@@ -386,10 +432,19 @@ func runWorker(bin, prop string, base uint64, from, count uint64, deadline time.
 		if clean && err == nil {
 			return res
 		}
+		if pre != nil && pre.Seed == lastStart {
+			// the run had already failed an invariant when the process died
+			// (typically: stuck while closing what the run had opened)
+			res.recs = append(res.recs, *pre)
+		}
 		// the process died (panic in a goroutine, fatal error, kill)
 		tail := stderr.String() + stdout.String()
+		hang := hangInSUT(stderr.String())
 		if len(tail) > 6000 {
 			tail = tail[len(tail)-6000:]
+		}
+		if hang != "" {
+			tail = "HANG-IN-SUT: " + hang + "\n" + tail
 		}
 		if killed {
 			tail = fmt.Sprintf("WATCHDOG: worker killed after exceeding the budget while running seed %d\n", lastStart) + tail
@@ -753,11 +808,36 @@ func main() {
 		fmt.Printf("VIOLATION property=%s replay=%s\n", p.ID, path)
 		vsummary = append(vsummary, map[string]any{"invariant": r.Violation.Invariant, "sig": r.Violation.Sig, "runs": v.n, "replay": path, "note": rf.Note})
 	}
+	hangSeen := map[string]bool{}
 	for i, d := range deaths {
 		name := fmt.Sprintf("%s-%d-process-died.json", p.ID, d.Seed)
 		path := filepath.Join(root, "replays", name)
 		rf := replayFile{Property: p.ID, Seed: d.Seed, UseSeed: true, Flavour: flavour, Invariant: p.ID + ".process-died", Sig: "process-died", Detail: d.Output}
 		crashV := &sim.Violation{Invariant: rf.Invariant, Sig: crashSig(d.Output)}
+		if strings.HasPrefix(d.Output, "HANG-IN-SUT: ") {
+			// the run goroutine never came back from a call into coreutils
+			fn := firstLine(strings.TrimPrefix(d.Output, "HANG-IN-SUT: "))
+			crashV = &sim.Violation{Invariant: p.ID + ".hang", Sig: fn}
+			rf.Invariant, rf.Sig = crashV.Invariant, fn
+			if f := matchOpen(findings, p.ID, crashV); f != nil {
+				if f.hit == 0 {
+					fmt.Printf("KNOWN-FINDING: %s\n", f.text)
+					knownHit = append(knownHit, f.text)
+				}
+				f.hit++
+				continue
+			}
+			if !hangSeen[fn] {
+				hangSeen[fn] = true
+				b, _ := json.MarshalIndent(rf, "", " ")
+				os.WriteFile(path, b, 0o644)
+				violations++
+				fmt.Printf("a run of seed %d never returned from %s (real-time budget exceeded with the run goroutine inside coreutils)\n", d.Seed, fn)
+				fmt.Printf("VIOLATION property=%s replay=%s\n", p.ID, path)
+				vsummary = append(vsummary, map[string]any{"invariant": rf.Invariant, "sig": fn, "runs": 1, "replay": path})
+			}
+			continue
+		}
 		if strings.Contains(d.Output, "WATCHDOG") || d.Seed == 0 || !crashInSUT(d.Output) {
 			infra++
 			if len(infraMsgs) < 5 {
